@@ -309,6 +309,16 @@ C02_Key == [][
       /\ r.cvs[v].key = (IF v \in DOMAIN r.valKey THEN r.valKey[v] ELSE p'.vals[v].pk)
   ]_vars
 
+\* the lists that decide eligibility are the ones the owner asked for: a message that carries power-shaping parameters
+\* installs exactly its allow / deny / priority lists (absent = empty), whatever was there before
+C02_ListsInstalled == [][
+  (PStep /\ (Txn(Ev, "UpdateConsumer") \/ Txn(Ev, "CreateConsumer")) /\ OkTx(Ev) /\ Has(Ev.args, "shaping")) =>
+    LET c == IF Txn(Ev, "CreateConsumer") THEN Ev.res.newId ELSE Ev.args.c
+        sh == Ev.args.shaping
+        Want(f) == IF Has(sh, f) THEN SeqToSet(sh[f]) ELSE {}
+    IN \A f \in {"allowL", "denyL", "prioL"} : SeqToSet(p'.cons[c][f]) = Want(f)
+  ]_vars
+
 (* ======================================================================= *)
 (* C03  Top-N                                                               *)
 (* ======================================================================= *)
@@ -1262,6 +1272,14 @@ C07_MisbVerdict == [][
     /\ OkTx(Ev) => ( /\ MisbFlagsOk(Ev.args) /\ Ev.args.c \in Cons(p) /\ p.cons[Ev.args.c].client # ""
                      /\ \E v \in MisbTargets(p, Ev.args) : Punishable(p, v) )
     /\ (~MisbFlagsOk(Ev.args)) => ~OkTx(Ev)
+  ]_vars
+
+\* completeness: a misbehaviour that is valid for the consumer and has at least one signer that can still be punished
+\* is accepted (signers that were punished before do not protect the others)
+C07_MisbComplete == [][
+  (PStep /\ Txn(Ev, "Misbehaviour")) =>
+    ((MisbFlagsOk(Ev.args) /\ Ev.args.c \in Cons(p) /\ p.cons[Ev.args.c].client # ""
+        /\ \E v \in MisbTargets(p, Ev.args) : Punishable(p, v)) => OkTx(Ev))
   ]_vars
 
 C07_MisbOnlySigners == [][
